@@ -60,6 +60,17 @@ Section SpecTerm.
 
   Definition plain_loc (v : loc) : Prop := is_dyn (l_val v) = false.
 
+  Lemma taint_post {A} (P : A -> Prop) m (r : SR A) :
+    match r with Ok (v, _) => P v | OutOfModel => False | _ => True end ->
+    match taint m r with Ok (v, _) => P v | OutOfModel => False | _ => True end.
+  Proof.
+    destruct r as [[x m']|e p| |]; cbn [taint]; auto. destruct (m && negb (err_marked p)); auto.
+  Qed.
+  Lemma taint_decided {A} m (r : SR A) : r <> OutOfModel -> taint m r <> OutOfModel.
+  Proof.
+    destruct r as [[x m']|e p| |]; cbn [taint]; auto; try discriminate. destruct (m && negb (err_marked p)); discriminate.
+  Qed.
+
   Definition dvs_ok (K : nat) (dv : value -> stack -> string -> value -> SR loc) : Prop :=
     forall rt st dp d, In rt alls -> sub d rt -> frees st < K ->
       match dv rt st dp d with
@@ -195,7 +206,7 @@ Section SpecTerm.
       - assert (In (path_str p sep) S0) as IN by (apply Href; exists rt; split; assumption).
         unfold dyn_step_s, resolve_ref_s.
         destruct (on_stack (path_str p sep) st) eqn:EA.
-        + rewrite no_resolver_s. exact I.
+        + rewrite no_resolver_s. apply (taint_post (fun v => lgoods v /\ plain_loc v)). exact I.
         + pose proof (frees_push _ _ IN EA) as MA.
           assert (forall x, In x (rt :: rev (eo_envs o)) -> In x alls) as Hin.
           { intros x [E|X]; [subst x; exact Hrt|right; apply in_rev; exact X]. }
@@ -204,11 +215,11 @@ Section SpecTerm.
           destruct T as [NO [NC GL]]. cbn [fst] in *.
           destruct r as [v| | | |e pe|r0].
           * pose proof (force1_ok (path_str p sep :: st) v (GL v eq_refl) ltac:(lia)) as F.
-            destruct (force1 dv (path_str p sep :: st) v) as [[w mw]|e pe| |]; cbn [bind fst snd]; try exact I; [exact F|contradiction].
-          * rewrite no_resolver_s. exact I.
-          * rewrite no_resolver_s. exact I.
+            apply (taint_post (fun v => lgoods v /\ plain_loc v)). exact F.
+          * rewrite no_resolver_s. apply (taint_post (fun v => lgoods v /\ plain_loc v)). exact I.
+          * rewrite no_resolver_s. apply (taint_post (fun v => lgoods v /\ plain_loc v)). exact I.
           * exfalso. apply NC. reflexivity.
-          * rewrite no_resolver_s. exact I.
+          * rewrite no_resolver_s. apply (taint_post (fun v => lgoods v /\ plain_loc v)). exact I.
           * rewrite (NO r0 eq_refl). exact I.
       - exfalso. apply (Hspl e). exists rt. split; assumption.
     Qed.
@@ -231,11 +242,11 @@ Section SpecTerm.
     destruct (get_path_s (dyn_s o fuel) (opts_path_idx (eo_p o) name idx) [] {| l_root := own; l_path := ""; l_val := own |})
       as [[r m]|e pe| |]; cbn [bind]; try discriminate; [|contradiction].
     cbn [reads_post fst snd] in *. destruct P as [NO GL].
-    destruct r as [[v|]|e pe| |]; try discriminate; [|contradiction].
-    unfold to_string_s.
+    destruct r as [[v|]|e pe| |]; try discriminate; try (apply taint_decided; discriminate); [|contradiction].
+    apply taint_decided. unfold to_string_s.
     pose proof (force1_ok (dyn_s o fuel) fuel (dyn_s_ok fuel) [] v (GL v eq_refl) ltac:(lia)) as F.
     destruct (force1 (dyn_s o fuel) [] v) as [[w mw]|e pe| |]; cbn [bind fst snd]; try discriminate; [|contradiction].
-    destruct F as [[Wr Wg] Wp].
+    destruct F as [[Wr Wg] Wp]. apply taint_decided.
     destruct (l_val w) as [ | |z|z|f|s|p sep|e|d0 a0] eqn:Ew; cbn [simple_string bind]; try discriminate.
     - destruct b; cbn [bind]; discriminate.
     - assert (ftext_lookup (eo_ftext o) f <> None) as Fl by (apply Hflt; exists (l_root w); split; assumption).
